@@ -213,6 +213,9 @@ class TokModel(IdentModel):
             return T(fn.split("::")[-1], args[0])
         if fn in self.F.fns:
             return self.call_local(fn, list(args))
+        parts = fn.split("::")
+        if len(parts) >= 2 and parts[-1][:1].isupper() and parts[-2][:1].isupper() and "Pattern" not in parts[-2]:
+            return ("ctor", parts[-2], parts[-1], list(args))  # the constructor of a local enum variant used as a function
         return super().apply_path(fn, args)
 
     def call_closure(self, cv, args):
@@ -293,6 +296,35 @@ class TokModel(IdentModel):
             if tgt.get("k") in ("Var", "Upvar") and isinstance(env.get(tgt["id"]), str):
                 env[tgt["id"]] = env[tgt["id"]] + _s(A_(1))
                 return ()
+        if last in ("find", "position", "any", "all", "find_map") and len(args) == 2 and "Iterator" in fn:
+            it = A_(0)
+            if isinstance(it, tuple) and it and it[0] in ("list", "vec", "seq"):
+                it = It(it[1])
+            if isinstance(it, It):
+                f = self.ev(args[1], env)
+                if isinstance(f, tuple) and f and f[0] in ("closure", "fnitem"):
+                    idx_ = 0
+                    while it.items:
+                        x = it.items.pop(0)
+                        r_ = self.call_closure(f, [x])
+                        if last == "find_map":
+                            if r_ is not None:
+                                return r_
+                        elif last == "all":
+                            if not self.truth(r_):
+                                return False
+                        elif self.truth(r_):
+                            return {"find": ("some", x), "position": ("some", idx_), "any": True}[last]
+                        idx_ += 1
+                    return {"find": None, "position": None, "any": False, "all": True, "find_map": None}[last]
+        if last == "as_str" and len(args) == 1:
+            v = A_(0)
+            if isinstance(v, It) and all(isinstance(x, str) for x in v.items):
+                return "".join(v.items)
+        if not fn and isinstance(n.get("fun"), dict):
+            f = self.ev(n["fun"], env)
+            if isinstance(f, tuple) and f and f[0] in ("closure", "fnitem"):
+                return self.call_closure(f, [self.arg(n, i_, env) for i_ in range(len(args))])
         if fn.endswith(("Fn::call", "FnMut::call_mut", "FnOnce::call_once")) and len(args) == 2:
             f, t = A_(0), A_(1)
             if isinstance(f, tuple) and f and f[0] in ("closure", "fnitem") and isinstance(t, tuple):
